@@ -98,13 +98,17 @@ let err_of (tok : string) =
    The driver PROPOSES certificates (how the frames split into fibers, which plan / outcome
    stream each fiber had, for C13 a schedule of `execute`); the extracted checkers decide. *)
 type e2e_rec = { api : string; idem : bool; pol : policy; spec : (int * int) option; cl0 : consistency;
-                 nn : int; down : n list; pg : int; t0 : n; tr : n; mg : n; res : string; co : n option;
+                 nn : int; down : n list; pg : int; t0 : n; tr : n; mg : n; res : string; co : n option; tmo : int option;
                  frs : frame list }
 
 let strip1 s = String.sub s 1 (String.length s - 1)
 
 let frame_of_string (s : string) : frame =
-  match String.split_on_char '/' s with
+  let parts = String.split_on_char '/' s in
+  let shard, parts = match parts with
+    | [n; c; a; b; x; sh] -> n_of_hex sh, [n; c; a; b; x]
+    | p -> N0, p in
+  match parts with
   | [node; cl; a; b; ans] ->
     let f_ans =
       if ans = "ok" then AnsOk else if ans = "drop" then AnsErr EBrokenConnectionError
@@ -112,7 +116,7 @@ let frame_of_string (s : string) : frame =
       else if String.length ans > 1 && ans.[0] = 'X' then AnsErr (err_of (strip1 ans))
       else failwith ("bad answer " ^ ans) in
     { f_node = n_of_hex node; f_cl = cl_of cl; f_arr = n_of_hex a; f_ans;
-      f_done = (if b = "-" then N0 else n_of_hex b) }
+      f_done = (if b = "-" then N0 else n_of_hex b); f_shard = shard }
   | _ -> failwith ("bad frame " ^ s)
 
 let parse_record (tok : string) : e2e_rec =
@@ -129,6 +133,7 @@ let parse_record (tok : string) : e2e_rec =
                 | _ -> failwith "bad spec");
       cl0 = cl_of (g "cl"); nn = hex "n"; down = nlist_of_string (g "down"); pg = hex "pg";
       t0 = n_of_hex (g "t0"); tr = n_of_hex (g "tr"); mg = n_of_hex (g "mg"); res = g "res";
+      tmo = (match List.assoc_opt "to" tbl with Some "-" | None -> None | Some t -> Some (int_of_string ("0x" ^ t)));
       co = (match List.assoc_opt "co" tbl with Some "-" | None -> None | Some c -> Some (n_of_hex c));
       frs = (if g "fr" = "-" then [] else List.map frame_of_string (String.split_on_char ',' (g "fr"))) }
   | _ -> failwith ("bad record " ^ tok)
@@ -235,6 +240,19 @@ let multi_certs (r : e2e_rec) (max : int) : (cert list * nat list) list =
       List.map (fun cs -> (cs, List.map nat_of_int assign)) (base @ hidden))
     (partitions (1 + max) r.frs)
 
+(* a request that ended with the client-side timeout: per fiber a cancelled prefix of a run
+   (C06_e2e_timeout); the timeout must have been set on the statement *)
+let timeout_accepted (r : e2e_rec) : bool =
+  match r.tmo with
+  | None -> false
+  | Some ms ->
+    let nodes = nodes_of r in
+    let specn = Option.map (fun (m, _) -> nat_of_int m) r.spec in
+    let max = match gate r with Some m -> m | None -> 0 in
+    List.exists (fun (cs, assign) ->
+        check_timeout r.pol r.idem specn r.cl0 nodes r.down cs assign r.frs r.t0 (n_of_int (ms * 1000)) r.tr r.mg)
+      (multi_certs r max)
+
 let rec_summary (r : e2e_rec) =
   Printf.sprintf "api=%s;idem=%b;spec=%s;pg=%d;res=%s;frames=%d" r.api r.idem
     (match r.spec with None -> "-" | Some (m, _) -> string_of_int m) r.pg r.res (List.length r.frs)
@@ -292,7 +310,8 @@ let e2e13_record (tok : string) : string =
   | None ->
     (* "it always returns": the call did not come back within the runner's 40 s although every frame
        had been answered and no scheduling stall was measured *)
-    if r.res = "hang" && List.for_all (fun f -> f.f_ans <> AnsNone) r.frs && int_of_n r.mg < 1_000_000
+    if r.res = "timeout" && timeout_accepted r then "ok"
+    else if r.res = "hang" && List.for_all (fun f -> f.f_ans <> AnsNone) r.frs && int_of_n r.mg < 1_000_000
     then "viol e2e no-return " ^ rec_summary r
     else (match direct_viol None with
         | Some c -> "viol e2e " ^ c ^ " " ^ rec_summary r
